@@ -23,6 +23,7 @@ RULE = RULE + " Rounds e-g: wide and negative integers before ordinary pitches, 
 RULE = RULE + " Round h: intervals beyond the float range."
 RULE = RULE + " Round i: keyword calls."
 RULE = RULE + " Round j: numpy int64 intervals."
+RULE = RULE + " Round k: MIDI export of key signatures in the workout."
 ASSUMPTIONS = ["KeyNoteMapping's first element of each scale list is the tonic (checked: it must span a major scale)",
                "enharmonic spelling of the returned key is free (compared as tonic pitch class + pitch-class set)"]
 TIERS = {"quick": dict(shards=2, examples=300, enum_shards=6),
@@ -71,7 +72,7 @@ def strategy(params, shard, nshards):
                   st.integers(-300, 500), st.one_of(st.integers(-130, -1), st.integers(-300, 500))),
         # the tables are shared module-level objects: they must be intact after the rest of the library has used them
         st.builds(lambda w, pitches, n: {"kind": "after_use", "workout": w, "pitches": pitches, "n": n},
-                  st.lists(st.sampled_from(["guess", "guess_keyed", "transpose", "bar_transpose", "load_key", "get_info", "equals_keys", "merge_keys"]), min_size=1, max_size=4),
+                  st.lists(st.sampled_from(["guess", "guess_keyed", "transpose", "bar_transpose", "load_key", "get_info", "equals_keys", "merge_keys", "export_keys"]), min_size=1, max_size=4),
                   st.lists(st.integers(21, 108), min_size=0, max_size=6), st.integers(-30, 30)),
     )
 
@@ -105,6 +106,10 @@ def _workout(out, case):
                 m = MidiFile()
                 m.parse_mido(mf)
                 Sequence.sequences_load(midi_file=m)
+            elif w == "export_keys":
+                for k_ in ("C#", "Cb", "Gb", "Db", "F#", "B"):
+                    s_ = build.sequence({"notes": notes, "meta": [["ks", 0, k_]], "route": "rel", "pad": 96})
+                    s_.to_midi_track().to_mido_track()
             elif w in ("equals_keys", "merge_keys"):
                 keys = ["Db", "D", "Gb", "F#", "Cb", "B", "C#", "C"]
                 k1 = keys[case["n"] % len(keys)]
